@@ -75,6 +75,10 @@ def finish(res, level="other", explanation="", assumptions=(), trusted_base=(), 
     for v in hit:
         print("KNOWN-FINDING: property=%s %s -- %s" % (pid, v["key"], known[v["key"]].get("what", v["msg"])))
     ev_dir = os.path.join(VERIF, "evidence")
+    dev = os.environ.get("ARK_REPO")
+    if dev and os.path.realpath(dev) != "/repo":
+        # development run against a scratch worktree: the committed evidence must only ever come from /repo itself
+        ev_dir = os.path.join("/tmp/ark_dev_evidence", os.path.basename(os.path.realpath(dev)))
     os.makedirs(ev_dir, exist_ok=True)
     obligations = sum(r.count() for r in res.rules)
     discharged = sum(r.count("ok") for r in res.rules)
